@@ -645,9 +645,27 @@ static void bn_gcd_ext_lehme_imp(bn_t c, bn_t d, bn_t e, const bn_t a,
 
 void bn_gcd_ext_lehme(bn_t c, bn_t d, bn_t e, const bn_t a, const bn_t b) {
 	int sa = bn_sign(a), sb = bn_sign(b);
+	bn_t _a, _b;
 
-	bn_gcd_ext_lehme_imp(c, d, e, a, b);
-	bn_gcd_ext_sign(d, e, sa, sb);
+	bn_null(_a);
+	bn_null(_b);
+
+	RLC_TRY {
+		bn_new(_a);
+		bn_new(_b);
+		/* The last step derives one cofactor from the operands themselves. */
+		bn_abs(_a, a);
+		bn_abs(_b, b);
+		bn_gcd_ext_lehme_imp(c, d, e, _a, _b);
+		bn_gcd_ext_sign(d, e, sa, sb);
+	}
+	RLC_CATCH_ANY {
+		RLC_THROW(ERR_CAUGHT);
+	}
+	RLC_FINALLY {
+		bn_free(_a);
+		bn_free(_b);
+	}
 }
 
 #endif
